@@ -440,6 +440,27 @@ def r06_6(ctx, A, chk):
         ctx.undecided(R, 'empty-key-idempotent', 'no empty-key path recognised in %s' % f.path, fn=f)
 
 
+def r06_7(ctx, A, chk):
+    """the two ordering errors have one source: the ordering check.  A second place that builds OutOfOrder / DuplicateKey is a second,
+    differently worded contract (a repeated empty key rejected, a guard that fires on accepted sequences)"""
+    R = ctx.rule('R06.7', 'ordering errors are constructed only by the ordering check', floor=1)
+    lib = ctx.lib
+    sites = []
+    for f in lib.fn_list:
+        if f.from_expansion:
+            continue
+        for bid, b in f.blocks.items():
+            for st in b['stmts']:
+                ag = st.get('rv', {}).get('agg') if st['k'] == 'assign' else None
+                if isinstance(ag, dict) and str(ag.get('adt', '')).endswith('error::Error') and ag.get('variant') in ('OutOfOrder', 'DuplicateKey'):
+                    sites.append((f, ag['variant'], st.get('line')))
+    owner = chk.path if chk is not None else None
+    extra = [(f, v, ln) for f, v, ln in sites if f.path != owner and not f.path.startswith(owner + '::') and 'fmt::' not in ((f.impl or {}).get('trait_path') or '')]
+    for f, v, ln in extra:
+        ctx.violation(R, 'second-source:%s' % f.path, '%s builds Error::%s although it is not the ordering check: the accept / reject contract now has a second author' % (f.path.rsplit('::', 1)[-1], v), fn=f)
+    ctx.check(R, bool(sites) and not extra, 'single-source', 'ordering error constructed outside the check (%d sites in the check)' % len([s_ for s_ in sites if s_ not in extra]))
+
+
 def run(ctx):
     lib = ctx.lib
     A = Anchors(lib)
@@ -458,4 +479,5 @@ def run(ctx):
     ctx.step(r06_4, ctx, A, chk)
     ctx.step(r06_5, ctx, A, add, ins)
     ctx.step(r06_6, ctx, A, chk)
+    ctx.step(r06_7, ctx, A, chk)
     ctx.notes.append({'ordering_check': chk.path, 'last_key_field': lastf})
